@@ -1,1 +1,338 @@
-import GeoModel
+/-
+  Property C01 — point membership.  `ringContainsPoint`, `Poly.containsPoint`,
+  `Line.containsPoint`, `Box.containsPt` of GeoModel.Geom answer exactly the planar
+  specification of GeoModel.Spec (boundary test + half-open crossing parity), for EVERY vertex
+  list (open or closed encoding, self-intersecting, repeated vertices, fewer than 3 points),
+  every `allowOnEdge`, and every index kind / threshold.
+
+  The index enters only through `Series.SearchExact` (GeoProofs/SeriesSearch.lean): proved
+  there for un-indexed and quadtree-indexed series, and for R-tree-indexed series from the
+  byte-level R-tree theorem.  Helper lemmas: GeoProofs/MemberLemmas.lean.
+-/
+import GeoProofs.MemberLemmas
+
+namespace Geo
+
+/-! ### the early-exit toggle fold -/
+
+/-- the answer of the early-exit toggle fold depends only on the multiset of visited segments
+    (the reported index may differ: it is the first visited segment that carries the point) -/
+theorem containsPoint_fold_perm (segAt : Nat → Seg) (p : Pt) (allowOnEdge : Bool) (v1 v2 : List Nat)
+    (h : List.Perm v1 v2) (b0 : Bool) (o1 o2 : Option Nat) :
+    (foldUntil (fun (st : Bool × Option Nat) i =>
+        let res := (segAt i).raycast p
+        if res.on then ((allowOnEdge, some i), false)
+        else if res.inn then ((!st.1, st.2), true)
+        else (st, true)) (b0, o1) v1).1.1 =
+    (foldUntil (fun (st : Bool × Option Nat) i =>
+        let res := (segAt i).raycast p
+        if res.on then ((allowOnEdge, some i), false)
+        else if res.inn then ((!st.1, st.2), true)
+        else (st, true)) (b0, o2) v2).1.1 :=
+  cpFold_hit_perm segAt p allowOnEdge v1 v2 h b0 o1 o2
+
+/-- closed form of the fold: `allowOnEdge` if some visited segment carries the point, otherwise
+    the parity of the number of visited segments crossed by the ray -/
+theorem containsPoint_fold_eq (segAt : Nat → Seg) (p : Pt) (allowOnEdge : Bool) (visit : List Nat) :
+    (foldUntil (fun (st : Bool × Option Nat) i =>
+        let res := (segAt i).raycast p
+        if res.on then ((allowOnEdge, some i), false)
+        else if res.inn then ((!st.1, st.2), true)
+        else (st, true)) (false, none) visit).1.1 =
+      if visit.any (fun i => ((segAt i).raycast p).on) then allowOnEdge
+      else decide ((visit.filter (fun i => ((segAt i).raycast p).inn)).length % 2 = 1) := by
+  have := cpFold_hit segAt p allowOnEdge visit false none
+  simp only [Bool.false_bne] at this
+  exact this
+
+/-! ### rings given by a series -/
+
+theorem mkSeries_segmentAt_fn (pts : Array Pt) (closed : Bool) (kind : IndexKind) (m : Nat) :
+    (mkSeries pts closed kind m).segmentAt = segmentAtOf pts := rfl
+
+/-- a ring given by a series: exact membership for EVERY vertex list (open or closed encoding,
+    self-intersecting, repeated vertices, fewer than 3 points), under any index for which the
+    search is exact. -/
+theorem ringContainsPoint_hit_iff (pts : Array Pt) (kind : IndexKind) (minPoints : Nat)
+    (hvis : (mkSeries pts true kind minPoints).SearchExact) (p : Pt) (allowOnEdge : Bool) :
+    (ringContainsPoint (.ser (mkSeries pts true kind minPoints)) p allowOnEdge).hit =
+      (if Spec.onBoundary (Spec.edges pts.toList true) p then allowOnEdge
+       else (Spec.parity (Spec.edges pts.toList true) p == 1)) := by
+  by_cases hc : (processPoints pts true).rect.containsPt p = true
+  · rw [(ser_ringContainsPoint _ hvis (mkSeries_hbox pts true kind minPoints) p allowOnEdge hc).1]
+    rw [mkSeries_numSegments, mkSeries_segmentAt_fn, ← onBoundary_eq_any]
+    by_cases hon : Spec.onBoundary (Spec.edges pts.toList true) p = true
+    · simp only [hon, if_true]
+    · have hon' : Spec.onBoundary (Spec.edges pts.toList true) p = false := by simpa using hon
+      rw [hon', parity_eq_count pts true p hon', Bool.eq_iff_iff]
+      simp
+  · have hc' : (processPoints pts true).rect.containsPt p = false := by simpa using hc
+    rw [ringContainsPoint_outside _ _ _ (by exact hc')]
+    obtain ⟨h1, h2⟩ := outside_rect pts p hc'
+    rw [h1, h2]
+    rfl
+
+/-- the same as two implications -/
+theorem ringContainsPoint_hit_cases (pts : Array Pt) (kind : IndexKind) (minPoints : Nat)
+    (hvis : (mkSeries pts true kind minPoints).SearchExact) (p : Pt) (allowOnEdge : Bool) :
+    (ringContainsPoint (.ser (mkSeries pts true kind minPoints)) p allowOnEdge).hit = true ↔
+      ((Spec.onBoundary (Spec.edges pts.toList true) p = true ∧ allowOnEdge = true) ∨
+       (Spec.onBoundary (Spec.edges pts.toList true) p = false ∧
+        Spec.parity (Spec.edges pts.toList true) p = 1)) := by
+  rw [ringContainsPoint_hit_iff pts kind minPoints hvis]
+  cases Spec.onBoundary (Spec.edges pts.toList true) p <;> simp
+
+/-- inclusive / exclusive membership in terms of the specification's `inRing` / `strictIn` -/
+theorem ringContainsPoint_inclusive (pts : Array Pt) (kind : IndexKind) (minPoints : Nat)
+    (hvis : (mkSeries pts true kind minPoints).SearchExact) (p : Pt) :
+    (ringContainsPoint (.ser (mkSeries pts true kind minPoints)) p true).hit =
+      Spec.inRing (Spec.edges pts.toList true) p := by
+  rw [ringContainsPoint_hit_iff pts kind minPoints hvis]
+  unfold Spec.inRing
+  cases Spec.onBoundary (Spec.edges pts.toList true) p <;> simp
+
+theorem ringContainsPoint_exclusive (pts : Array Pt) (kind : IndexKind) (minPoints : Nat)
+    (hvis : (mkSeries pts true kind minPoints).SearchExact) (p : Pt) :
+    (ringContainsPoint (.ser (mkSeries pts true kind minPoints)) p false).hit =
+      Spec.strictIn (Spec.edges pts.toList true) p := by
+  rw [ringContainsPoint_hit_iff pts kind minPoints hvis]
+  unfold Spec.strictIn
+  cases Spec.onBoundary (Spec.edges pts.toList true) p <;> simp
+
+/-- the reported index, when present, is a segment of the ring that carries the point -/
+theorem ringContainsPoint_idx_on (pts : Array Pt) (kind : IndexKind) (minPoints : Nat)
+    (hvis : (mkSeries pts true kind minPoints).SearchExact) (p : Pt) (allowOnEdge : Bool) (i : Nat)
+    (h : (ringContainsPoint (.ser (mkSeries pts true kind minPoints)) p allowOnEdge).idx = some i) :
+    i < numSegmentsOf pts true ∧ OnSeg (segmentAtOf pts i).a (segmentAtOf pts i).b p := by
+  by_cases hc : (processPoints pts true).rect.containsPt p = true
+  · obtain ⟨h1, h2⟩ :=
+      (ser_ringContainsPoint _ hvis (mkSeries_hbox pts true kind minPoints) p allowOnEdge hc).2.1 i h
+    exact ⟨h1, (raycast_on_iff _ _ _).1 h2⟩
+  · have hc' : (processPoints pts true).rect.containsPt p = false := by simpa using hc
+    rw [ringContainsPoint_outside _ _ _ (by exact hc')] at h
+    cases h
+
+/-- an index is reported exactly when the point lies on the boundary -/
+theorem ringContainsPoint_idx_isSome (pts : Array Pt) (kind : IndexKind) (minPoints : Nat)
+    (hvis : (mkSeries pts true kind minPoints).SearchExact) (p : Pt) (allowOnEdge : Bool) :
+    (ringContainsPoint (.ser (mkSeries pts true kind minPoints)) p allowOnEdge).idx.isSome =
+      Spec.onBoundary (Spec.edges pts.toList true) p := by
+  by_cases hc : (processPoints pts true).rect.containsPt p = true
+  · rw [(ser_ringContainsPoint _ hvis (mkSeries_hbox pts true kind minPoints) p allowOnEdge hc).2.2,
+      mkSeries_numSegments, mkSeries_segmentAt_fn, ← onBoundary_eq_any]
+  · have hc' : (processPoints pts true).rect.containsPt p = false := by simpa using hc
+    rw [ringContainsPoint_outside _ _ _ (by exact hc'), (outside_rect pts p hc').1]
+    rfl
+
+/-- index independence: the same answer under every index kind and threshold -/
+theorem ringContainsPoint_index_indep (pts : Array Pt) (k1 k2 : IndexKind) (m1 m2 : Nat)
+    (h1 : (mkSeries pts true k1 m1).SearchExact) (h2 : (mkSeries pts true k2 m2).SearchExact)
+    (p : Pt) (allowOnEdge : Bool) :
+    (ringContainsPoint (.ser (mkSeries pts true k1 m1)) p allowOnEdge).hit =
+      (ringContainsPoint (.ser (mkSeries pts true k2 m2)) p allowOnEdge).hit ∧
+    (ringContainsPoint (.ser (mkSeries pts true k1 m1)) p allowOnEdge).idx.isSome =
+      (ringContainsPoint (.ser (mkSeries pts true k2 m2)) p allowOnEdge).idx.isSome := by
+  rw [ringContainsPoint_hit_iff pts k1 m1 h1, ringContainsPoint_hit_iff pts k2 m2 h2,
+    ringContainsPoint_idx_isSome pts k1 m1 h1, ringContainsPoint_idx_isSome pts k2 m2 h2]
+  exact ⟨rfl, rfl⟩
+
+/-- hypothesis-free instances: no index, and quadtree index under the format's size bounds -/
+theorem ringContainsPoint_hit_iff_none (pts : Array Pt) (minPoints : Nat) (p : Pt) (allowOnEdge : Bool) :
+    (ringContainsPoint (.ser (mkSeries pts true .none minPoints)) p allowOnEdge).hit =
+      (if Spec.onBoundary (Spec.edges pts.toList true) p then allowOnEdge
+       else (Spec.parity (Spec.edges pts.toList true) p == 1)) :=
+  ringContainsPoint_hit_iff pts .none minPoints (series_search_exact_kind_none pts true minPoints) p
+    allowOnEdge
+
+theorem ringContainsPoint_hit_iff_quadtree (pts : Array Pt) (minPoints : Nat)
+    (hn : pts.size < 2 ^ 32) (hsz : (qBytesOf pts true).size < 2 ^ 32) (p : Pt) (allowOnEdge : Bool) :
+    (ringContainsPoint (.ser (mkSeries pts true .quadtree minPoints)) p allowOnEdge).hit =
+      (if Spec.onBoundary (Spec.edges pts.toList true) p then allowOnEdge
+       else (Spec.parity (Spec.edges pts.toList true) p == 1)) :=
+  ringContainsPoint_hit_iff pts .quadtree minPoints
+    (series_search_exact_quadtree pts true minPoints hn hsz) p allowOnEdge
+
+/-- quadtree-indexed and un-indexed rings answer alike -/
+theorem ringContainsPoint_quadtree_eq_none (pts : Array Pt) (m1 m2 : Nat)
+    (hn : pts.size < 2 ^ 32) (hsz : (qBytesOf pts true).size < 2 ^ 32) (p : Pt) (allowOnEdge : Bool) :
+    (ringContainsPoint (.ser (mkSeries pts true .quadtree m1)) p allowOnEdge).hit =
+      (ringContainsPoint (.ser (mkSeries pts true .none m2)) p allowOnEdge).hit :=
+  (ringContainsPoint_index_indep pts .quadtree .none m1 m2
+    (series_search_exact_quadtree pts true m1 hn hsz) (series_search_exact_kind_none pts true m2)
+    p allowOnEdge).1
+
+/-! ### a rectangle used as a ring; Rect -/
+
+theorem rectContainsPoint_iff (b : Box) (p : Pt) :
+    b.containsPt p = true ↔ b.min.x ≤ p.x ∧ p.x ≤ b.max.x ∧ b.min.y ≤ p.y ∧ p.y ≤ b.max.y := by
+  unfold Box.containsPt
+  simp only [Bool.and_eq_true, decide_eq_true_eq, ge_iff_le, and_assoc]
+
+theorem rectContainsPoint_spec (lo hi p : Pt) :
+    (⟨lo, hi⟩ : Box).containsPt p = Spec.Shape.member (.rect lo hi) p := by
+  unfold Box.containsPt Spec.Shape.member
+  simp only [ge_iff_le]
+
+/-- a Rect used as a ring (inclusive): exactly the closed rectangle.  No hypothesis on `b` is
+    needed: an inverted box contains no point under either reading. -/
+theorem rectRing_containsPoint_iff (b : Box) (p : Pt) :
+    (ringContainsPoint (.bx b) p true).hit = b.containsPt p := by
+  by_cases hc : b.containsPt p = true
+  · rw [bx_ringContainsPoint b p true hc, hc]
+    simp
+  · have hc' : b.containsPt p = false := by simpa using hc
+    rw [ringContainsPoint_outside _ _ _ (by exact hc'), hc']
+
+/-- a Rect used as a ring (exclusive): the closed rectangle minus its four sides -/
+theorem rectRing_containsPoint_strict (b : Box) (p : Pt) :
+    (ringContainsPoint (.bx b) p false).hit =
+      (b.containsPt p && !([0, 1, 2, 3].any (fun i => ((b.segmentAt i).raycast p).on))) := by
+  by_cases hc : b.containsPt p = true
+  · rw [bx_ringContainsPoint b p false hc, hc]
+    change _ = (true && !([0, 1, 2, 3].any (onAt b.segmentAt p)))
+    cases [0, 1, 2, 3].any (onAt b.segmentAt p) <;> rfl
+  · have hc' : b.containsPt p = false := by simpa using hc
+    rw [ringContainsPoint_outside _ _ _ (by exact hc'), hc']
+    rfl
+
+/-! ### polygons and lines -/
+
+theorem not_any_eq_all_not {α : Type} (l : List α) (f : α → Bool) (g : α → Bool)
+    (h : ∀ x ∈ l, f x = g x) : (!(l.any f)) = l.all (fun x => !g x) := by
+  induction l with
+  | nil => rfl
+  | cons x xs ih =>
+    simp only [List.any_cons, List.all_cons, Bool.not_or]
+    rw [ih (fun y hy => h y (by simp [hy])), h x (by simp)]
+
+/-- polygon membership: exterior inclusive, holes exclusive — every ring may carry its own
+    index kind and threshold -/
+theorem polyContainsPoint_iff (ext : Array Pt) (ek : IndexKind) (em : Nat)
+    (holes : List (Array Pt × IndexKind × Nat))
+    (hext : (mkSeries ext true ek em).SearchExact)
+    (hholes : ∀ h ∈ holes, (mkSeries h.1 true h.2.1 h.2.2).SearchExact) (p : Pt) :
+    Poly.containsPoint
+        ⟨some (.ser (mkSeries ext true ek em)),
+         holes.map (fun h => Ring.ser (mkSeries h.1 true h.2.1 h.2.2))⟩ p =
+      Spec.Shape.member (.poly ext.toList (holes.map (fun h => h.1.toList))) p := by
+  unfold Poly.containsPoint Spec.Shape.member
+  simp only
+  rw [ringContainsPoint_inclusive ext ek em hext, List.any_map, List.all_map]
+  simp only [Function.comp_def]
+  rw [not_any_eq_all_not holes _ (fun h => Spec.strictIn (Spec.edges h.1.toList true) p)
+    (fun h hh => ringContainsPoint_exclusive h.1 h.2.1 h.2.2 (hholes h hh) p)]
+  cases Spec.inRing (Spec.edges ext.toList true) p <;> rfl
+
+/-- a polygon without exterior (`NewPolygon(nil)`) contains nothing -/
+theorem polyContainsPoint_nil (holes : List Ring) (p : Pt) :
+    Poly.containsPoint ⟨none, holes⟩ p = false := rfl
+
+/-- line-string membership: the point lies on one of the segments -/
+theorem lineContainsPoint_iff (pts : Array Pt) (kind : IndexKind) (minPoints : Nat)
+    (hvis : (mkSeries pts false kind minPoints).SearchExact) (p : Pt) :
+    Line.containsPoint (mkSeries pts false kind minPoints) p =
+      Spec.onBoundary (Spec.edges pts.toList false) p := by
+  rw [line_containsPoint_any _ hvis, mkSeries_numSegments, mkSeries_segmentAt_fn, onBoundary_eq_any]
+
+theorem lineContainsPoint_spec (pts : Array Pt) (kind : IndexKind) (minPoints : Nat)
+    (hvis : (mkSeries pts false kind minPoints).SearchExact) (p : Pt) :
+    Line.containsPoint (mkSeries pts false kind minPoints) p =
+      Spec.Shape.member (.line pts.toList) p :=
+  lineContainsPoint_iff pts kind minPoints hvis p
+
+theorem lineContainsPoint_index_indep (pts : Array Pt) (k1 k2 : IndexKind) (m1 m2 : Nat)
+    (h1 : (mkSeries pts false k1 m1).SearchExact) (h2 : (mkSeries pts false k2 m2).SearchExact)
+    (p : Pt) :
+    Line.containsPoint (mkSeries pts false k1 m1) p = Line.containsPoint (mkSeries pts false k2 m2) p := by
+  rw [lineContainsPoint_iff pts k1 m1 h1, lineContainsPoint_iff pts k2 m2 h2]
+
+/-- Prop-level reading of the boundary test: some edge of the chain carries the point -/
+theorem onBoundary_iff (es : List (Pt × Pt)) (p : Pt) :
+    Spec.onBoundary es p = true ↔ ∃ e ∈ es, OnSeg e.1 e.2 p := by
+  unfold Spec.onBoundary
+  rw [List.any_eq_true]
+  constructor
+  · rintro ⟨e, he, h⟩; exact ⟨e, he, (spec_onSeg_iff _ _ _).1 h⟩
+  · rintro ⟨e, he, h⟩; exact ⟨e, he, (spec_onSeg_iff _ _ _).2 h⟩
+
+/-! ### non-vacuity: concrete rings, kernel evaluation -/
+
+/-- a concave ring (reflex vertex (2,1)), closed encoding -/
+def c01Concave : Array Pt := #[⟨0,0⟩, ⟨4,0⟩, ⟨4,4⟩, ⟨2,1⟩, ⟨0,4⟩, ⟨0,0⟩]
+/-- a self-intersecting "bow-tie", open encoding (closing edge added by the segment rule) -/
+def c01Bowtie : Array Pt := #[⟨0,0⟩, ⟨4,4⟩, ⟨4,0⟩, ⟨0,4⟩]
+
+-- inside, in the notch (outside), on an edge (both readings), on a vertex
+example : (ringContainsPoint (.ser (mkSeries c01Concave true .none 0)) ⟨1,1⟩ false).hit = true := by
+  decide +kernel
+example : (ringContainsPoint (.ser (mkSeries c01Concave true .none 0)) ⟨2,3⟩ true).hit = false := by
+  decide +kernel
+example : (ringContainsPoint (.ser (mkSeries c01Concave true .none 0)) ⟨4,2⟩ true).hit = true := by
+  decide +kernel
+example : (ringContainsPoint (.ser (mkSeries c01Concave true .none 0)) ⟨4,2⟩ false).hit = false := by
+  decide +kernel
+example : (ringContainsPoint (.ser (mkSeries c01Concave true .none 0)) ⟨2,1⟩ true).idx = some 2 := by
+  decide +kernel
+-- the specification side of the same facts
+example : Spec.onBoundary (Spec.edges c01Concave.toList true) ⟨4,2⟩ = true := by decide +kernel
+example : Spec.onBoundary (Spec.edges c01Concave.toList true) ⟨1,1⟩ = false ∧
+    Spec.parity (Spec.edges c01Concave.toList true) ⟨1,1⟩ = 1 := by decide +kernel
+example : Spec.parity (Spec.edges c01Concave.toList true) ⟨2,3⟩ = 0 := by decide +kernel
+-- the bow-tie: the two lobes are inside, the crossing point is on the boundary
+example : (ringContainsPoint (.ser (mkSeries c01Bowtie true .none 0)) ⟨3,2⟩ false).hit = true := by
+  decide +kernel
+example : (ringContainsPoint (.ser (mkSeries c01Bowtie true .none 0)) ⟨2,3⟩ false).hit = false := by
+  decide +kernel
+example : (ringContainsPoint (.ser (mkSeries c01Bowtie true .none 0)) ⟨2,2⟩ false).hit = false ∧
+    (ringContainsPoint (.ser (mkSeries c01Bowtie true .none 0)) ⟨2,2⟩ true).hit = true := by
+  decide +kernel
+-- fewer than 3 points: no edge, nothing is contained (even the origin of the zero rect)
+example : (ringContainsPoint (.ser (mkSeries #[⟨0,0⟩, ⟨0,0⟩] true .none 0)) ⟨0,0⟩ true).hit = false := by
+  decide +kernel
+-- the theorem instantiated on a really indexed ring (40 vertices ≥ threshold 16)
+example (p : Pt) (allow : Bool) :
+    (ringContainsPoint (.ser (mkSeries exRing40 true .quadtree 16)) p allow).hit =
+      (if Spec.onBoundary (Spec.edges exRing40.toList true) p then allow
+       else (Spec.parity (Spec.edges exRing40.toList true) p == 1)) :=
+  ringContainsPoint_hit_iff_quadtree exRing40 16 (by decide +kernel) (by decide +kernel) p allow
+-- ... which turns membership questions on the indexed ring into evaluations of the specification
+example : (ringContainsPoint (.ser (mkSeries exRing40 true .quadtree 16)) ⟨5,2⟩ false).hit = true := by
+  rw [ringContainsPoint_hit_iff_quadtree exRing40 16 (by decide +kernel) (by decide +kernel)]
+  decide +kernel
+example : (ringContainsPoint (.ser (mkSeries exRing40 true .quadtree 16)) ⟨5,(1:Rat)/2⟩ false).hit = false := by
+  rw [ringContainsPoint_hit_iff_quadtree exRing40 16 (by decide +kernel) (by decide +kernel)]
+  decide +kernel
+-- rectangle ring, line
+example : (ringContainsPoint (.bx ⟨⟨0,0⟩,⟨2,2⟩⟩) ⟨2,1⟩ true).hit = true := by decide +kernel
+example : (ringContainsPoint (.bx ⟨⟨0,0⟩,⟨2,2⟩⟩) ⟨2,1⟩ false).hit = false := by decide +kernel
+example : Line.containsPoint (mkSeries #[⟨0,0⟩, ⟨2,2⟩, ⟨4,0⟩] false .none 0) ⟨3,1⟩ = true := by
+  decide +kernel
+example : Line.containsPoint (mkSeries #[⟨0,0⟩, ⟨2,2⟩, ⟨4,0⟩] false .none 0) ⟨2,0⟩ = false := by
+  decide +kernel
+-- polygon with a hole: the hole's boundary belongs to the polygon, its interior does not
+example : Poly.containsPoint ⟨some (.ser (mkSeries #[⟨0,0⟩,⟨6,0⟩,⟨6,6⟩,⟨0,6⟩,⟨0,0⟩] true .none 0)),
+    [.ser (mkSeries #[⟨2,2⟩,⟨4,2⟩,⟨4,4⟩,⟨2,4⟩,⟨2,2⟩] true .none 0)]⟩ ⟨2,3⟩ = true := by decide +kernel
+example : Poly.containsPoint ⟨some (.ser (mkSeries #[⟨0,0⟩,⟨6,0⟩,⟨6,6⟩,⟨0,6⟩,⟨0,0⟩] true .none 0)),
+    [.ser (mkSeries #[⟨2,2⟩,⟨4,2⟩,⟨4,4⟩,⟨2,4⟩,⟨2,2⟩] true .none 0)]⟩ ⟨3,3⟩ = false := by decide +kernel
+
+end Geo
+
+#print axioms Geo.containsPoint_fold_perm
+#print axioms Geo.containsPoint_fold_eq
+#print axioms Geo.ringContainsPoint_hit_iff
+#print axioms Geo.ringContainsPoint_hit_cases
+#print axioms Geo.ringContainsPoint_inclusive
+#print axioms Geo.ringContainsPoint_exclusive
+#print axioms Geo.ringContainsPoint_idx_on
+#print axioms Geo.ringContainsPoint_idx_isSome
+#print axioms Geo.ringContainsPoint_index_indep
+#print axioms Geo.ringContainsPoint_hit_iff_none
+#print axioms Geo.ringContainsPoint_hit_iff_quadtree
+#print axioms Geo.ringContainsPoint_quadtree_eq_none
+#print axioms Geo.rectContainsPoint_iff
+#print axioms Geo.rectContainsPoint_spec
+#print axioms Geo.rectRing_containsPoint_iff
+#print axioms Geo.rectRing_containsPoint_strict
+#print axioms Geo.polyContainsPoint_iff
+#print axioms Geo.lineContainsPoint_iff
+#print axioms Geo.lineContainsPoint_index_indep
